@@ -73,6 +73,7 @@ def cases(tier, seed):
     for spec in workload.standard_cases(tier, seed, n, n, opts_fn=opts, frag_share=0.35,
                                         p={"icode_prob": 0.2, "variant_prob": 0.15, "na_prob": 0.15, "waters": [0, 2, 5, 8],
                                            "damage_prob": 0.3, "carboxyl_asym_prob": 0.4, "gap_prob": 0.25, "bb_damage_prob": 0.04, "dense_prob": 0.8, "crowd_prob": 0.3,
+                                           "charmm_h_prob": 0.35,
                                            "hydrogens": ["none", "none", "some", "side"]}):
         spec["kind"] = "run"
         out.append(spec)
@@ -93,6 +94,17 @@ def cases(tier, seed):
                     "p": {"hydrogens": ["all"], "nterm_amide_prob": 0.7, "dense_prob": 1.0, "waters": [3, 6, 9], "na": False,
                           "minlen": 4, "maxlen": 7, "variant_prob": 0.0,
                           "pool": ["ASN", "GLN", "HIS", "ASN", "GLN", "SER", "THR", "ASP", "LYS", "TYR", "ALA", "GLY"]}})
+    # protonated inputs on the default route whose methylene hydrogens carry the CHARMM / GROMACS names and order
+    # (X1 X2 instead of X2 X3): kept hydrogens and rebuilt ones meet in one residue
+    ncharmm = 24 if tier == "quick" else 2500
+    for i in range(ncharmm):
+        ff = common.FFS[i % 6]
+        out.append({"kind": "run", "w": "synth", "seed": seed * 940001 + i, "ff": ff,
+                    "opts": [f"--ff={ff}"] + [[], [], ["--noopt"], ["--nodebump"]][i % 4],
+                    "p": {"hydrogens": ["all", "all", "side", "some"], "charmm_h_prob": 0.8, "dense_prob": 0.6, "waters": [0, 2],
+                          "na": False, "minlen": 3, "maxlen": 7, "variant_prob": 0.05,
+                          "pool": ["GLY", "GLY", "SER", "LYS", "ILE", "PRO", "ASP", "GLU", "PHE", "ARG", "MET", "CYS",
+                                   "LEU", "ASN", "GLN", "HIS", "TRP", "TYR", "THR", "VAL", "ALA"]}})
     nstress = 40 if tier == "quick" else 5000
     rng = random.Random(seed * 79 + 5)
     for i in range(nstress):
